@@ -4226,10 +4226,20 @@ func (t *Terminal) toggleItem(item *Item) bool {
 	return true
 }
 
-func (t *Terminal) killPreview() {
+// killPreview terminates the running preview command, if any, and waits for
+// the previewer to finish so that no preview process outlives fzf
+func (t *Terminal) killPreview(previewerDone <-chan struct{}) {
+	timeout := time.After(previewCancelWait)
 	select {
 	case t.killChan <- true:
-	default:
+	case <-previewerDone:
+		return
+	case <-timeout:
+		return
+	}
+	select {
+	case <-previewerDone:
+	case <-timeout:
 	}
 }
 
@@ -4416,8 +4426,10 @@ func (t *Terminal) Loop() error {
 		}()
 	}
 
+	previewerDone := make(chan struct{})
 	if t.hasPreviewer() {
 		go func() {
+			defer close(previewerDone)
 			var version int64
 			stop := false
 			t.previewBox.WaitFor(reqPreviewReady)
@@ -4762,10 +4774,13 @@ func (t *Terminal) Loop() error {
 			})
 		}
 
-		t.eventBox.Set(EvtQuit, quitSignal{code, nil})
 		t.running.Set(false)
-		t.killPreview()
+		if t.hasPreviewer() {
+			t.killPreview(previewerDone)
+		}
 		cancel()
+		// Should be the last step; fzf can exit as soon as the event is processed
+		t.eventBox.Set(EvtQuit, quitSignal{code, nil})
 	}()
 
 	looping := true
